@@ -32,6 +32,7 @@ namespace ratio
 
     atom_listener::atom_listener(atom &atm) : smt::sat_value_listener(atm.get_core().get_sat_core()), smt::lra_value_listener(atm.get_core().get_lra_theory()), smt::rdl_value_listener(atm.get_core().get_rdl_theory()), smt::ov_value_listener(atm.get_core().get_ov_theory()), atm(atm)
     {
+        listen_sat(atm.get_sigma()); // the activation of the atom is a change too (an atom with constant arguments has nothing else to listen to)..
         for (const auto &[xpr_name, xpr] : atm.get_exprs())
             if (bool_item *be = dynamic_cast<bool_item *>(&*xpr))
                 listen_sat(variable(be->l));
